@@ -385,7 +385,7 @@ package testscript
 //@   ensures !neg ==> matchP(re, my_text) && (n > 0 ==> countP(re, my_text) == n)
 
 // ---- C04: isolation and clean-up ----
-//@ property C04: (*TestScript).setup, (*TestScript).run, run$3, (*TestScript).waitBackground, (*TestScript).cmdExec, cmdExec$1, waitOrStop, (*TestScript).exec, (*TestScript).execBackground, (*TestScript).Defer, Defer$1, RunT$1, RunT$1$2, removeAll
+//@ property C04: (*TestScript).setup, (*TestScript).run, run$3, (*TestScript).waitBackground, (*TestScript).cmdExec, cmdExec$1, waitOrStop, (*TestScript).exec, (*TestScript).execBackground, (*TestScript).Defer, Defer$1, RunT, RunT$1, RunT$1$2, removeAll
 
 // Defer: the new chain runs f first and the old chain afterwards, and the old chain is
 // already deferred when f is called (so it runs even if f panics): LIFO.
@@ -585,3 +585,35 @@ package testscript
 //@   requires ts != nil && failBudget == 0
 //@ func (*TestScript).cmdTtyout
 //@   requires ts != nil && failBudget == 0
+
+// RunT (partial contract: only the call-site clause and the loop invariants below are
+// proved): the names handed to t.Run, and with them the work directories
+// <root>/script-<name>, are pairwise distinct.
+//@ ghost var seenRunNames (Array Int Bool)
+//@ extern (github.com/rogpeppe/go-internal/testscript.T).Run(t, name, f)
+//@   modifies F_*, H_*, fs*, fd*, g*, failBudget, clock, C_Int
+//@ extern context.Background() (r)
+//@   pure
+//@ extern context.WithTimeout(parent, timeout) (ctx, cancel)
+//@   pure
+//@ extern time.Until(t) (r)
+//@   pure
+//@ extern os.ReadDir(name) (entries, err)
+//@   modifies new H_Int
+//@ extern (os.DirEntry).Name(e) (r)
+//@   pure
+//@ extern os.MkdirTemp(dir, pattern) (r, err)
+//@   modifies fsExists
+//@ extern path/filepath.EvalSymlinks(path) (r, err)
+//@   pure
+//@ extern strings.CutSuffix(s, suffix) (before, found)
+//@   pure
+//@ extern strconv.Itoa(i) (r)
+//@   pure
+//@ func RunT
+//@   partial
+//@   at call (github.com/rogpeppe/go-internal/testscript.T).Run#1: requires !seenRunNames[sid(name)]
+//@   at call (github.com/rogpeppe/go-internal/testscript.T).Run#1: ghost_after seenRunNames[sid(name)] = true
+//@   at call context.Background#1: ghost seenRunNames = emptySet()
+//@   loop 2: invariant names != nil && forall k int {seenRunNames[k]} :: seenRunNames[k] ==> mapkeys(names)[k] && mapvals(names)[k]
+//@   loop 3: invariant names != nil && forall k int {seenRunNames[k]} :: seenRunNames[k] ==> mapkeys(names)[k] && mapvals(names)[k]
